@@ -5,8 +5,8 @@ import random
 
 KINDS = ['sd1', 'sd2', 'sdhc']
 CSDS = {
-    'sd1': [dict(ver=0, c_size=1000, mult=3, bl=9), dict(ver=0, c_size=4095, mult=7, bl=10, erase=0), dict(ver=0, c_size=3874, mult=7, bl=9)],
-    'sd2': [dict(ver=0, c_size=4095, mult=7, bl=10), dict(ver=0, c_size=2047, mult=6, bl=9, erase=0)],
+    'sd1': [dict(ver=0, c_size=1000, mult=3, bl=9), dict(ver=0, c_size=4095, mult=7, bl=11, erase=0), dict(ver=0, c_size=3874, mult=7, bl=9)],   # (the second: 4 GiB, the last byte address is 0xFFFFFE00)
+    'sd2': [dict(ver=0, c_size=4095, mult=7, bl=10), dict(ver=0, c_size=4095, mult=7, bl=11, erase=0), dict(ver=0, c_size=2047, mult=6, bl=9, erase=0)],
     'sdhc': [dict(ver=1, c_size=15, erase=0), dict(ver=1, c_size=8191), dict(ver=1, c_size=60000)],
 }
 
@@ -29,6 +29,10 @@ def standard_ops(nb, rng):
     ops += [O('write', blk=5, n=1), O('write', blk=6, n=2), O('read', blk=5, n=3), O('read', blk=4, n=1), O('read', blk=8, n=1)]
     # far beyond every capacity: block numbers whose byte address does not fit 32 bits
     ops += [O('read', blk=2 ** 23, n=1), O('write', blk=2 ** 23 + 1, n=1), O('read', blk=2 ** 32 - 1, n=1), O('read', blk=2 ** 31, n=2), O('read', blk=1, n=1)]
+    # single-block reads right after one another whose addresses differ in one high bit only
+    for d in (32768, 2 ** 19, 2 ** 24, 2 ** 28):
+        if 10 + d < nb:
+            ops += [O('read', blk=10, n=1), O('read', blk=10 + d, n=1), O('read', blk=10, n=1)]
     # empty transfers (a slice of no blocks), each followed by an ordinary call
     ops += [O('read', blk=7, n=0), O('read', blk=7, n=1), O('write', blk=7, n=0), O('write', blk=7, n=1), O('read', blk=7, n=2)]
     return ops
@@ -60,6 +64,23 @@ def healthy(seed, quick):
                    O('write', blk=nb - 2, n=2), O('read', blk=nb - 2, n=2), O('num_blocks')]
             S.append(dict(id='H%d-oor-%s-%s' % (k, kind, 'crc' if crc else 'nocrc'), kind=kind, crc=crc, csd=csd, timing=dict(resp=1, tok=2, busy=3, acmd41=1), seed=seed * 1000 + k,
                           ops=ops, oor=True))
+    # ... the same card when a block of such a read is damaged / replaced by an error token / missing: the quirk in the stop response
+    # must not hide the failure
+    for kind in KINDS:
+        for crc in (True, False):
+            for what, arg in (('flip', 77), ('errtoken', 0), ('badtoken', 0), ('notoken', 0)):
+                k += 1
+                csd = CSDS[kind][0]
+                nb = cap(csd)
+                S.append(dict(id='H%d-oorf-%s-%s-%s' % (k, what, kind, 'crc' if crc else 'nocrc'), kind=kind, crc=crc, csd=csd, timing=dict(resp=1, tok=2, busy=3, acmd41=1), seed=seed * 1000 + k,
+                              misb=[dict(when='data', nth=3, what=what, arg=arg)], ops=[O('read', blk=nb - 3, n=3), O('read', blk=nb - 2, n=2), O('read', blk=nb - 3, n=4), O('read', blk=1, n=1)], oor=True))
+    # card-specific data registers of every shape with CRC off (the two check bytes behind the register are on the bus all the same)
+    for kind, lo in (('sdhc', 7000), ('sd1', 3000)):
+        for cs in range(lo, lo + (140 if quick else 1024)):
+            k += 1
+            csd = dict(ver=1, c_size=cs) if kind == 'sdhc' else dict(ver=0, c_size=cs % 4096, mult=5, bl=9)
+            S.append(dict(id='H%d-csd-%s-%d' % (k, kind, cs), kind=kind, crc=False, csd=csd, timing=dict(resp=0, tok=1, busy=1, acmd41=0), seed=seed * 1000 + k,
+                          ops=[O('num_blocks'), O('read', blk=1, n=1), O('erase_en'), O('write', blk=1, n=1)]))
     # long transfers on a healthy card: many blocks, each followed by a (legal, short) busy period - the busy periods of one call
     # add up to more than any single wait allows; long multi-block reads
     for kind, crc, n, busy in ([('sdhc', True, 100, 600), ('sd1', False, 70, 900)] if quick else [('sdhc', True, 100, 600), ('sd1', False, 70, 900), ('sd2', True, 512, 120), ('sdhc', False, 300, 250)]):
